@@ -23,9 +23,16 @@ def make_model(case):
     L = case['L']
     bc = case['bc']
     common = {'L': L, 'bc_MPS': bc}
+    if m.get('explicit_plus_hc') and m['name'] != 'longrange':
+        # documented option of every CouplingMPOModel: the MPO stores only half of each hermitian-conjugate pair, H = H_MPO + h.c.
+        common['explicit_plus_hc'] = True
     if m['name'] == 'tfi':
         return TFIChain(dict(common, J=m['J'], g=m['g'], conserve=m['conserve']))
     if m['name'] == 'xxz':
+        if m.get('explicit_plus_hc'):
+            # (XXZChain is written by hand and has no such option; XXZChain2 is the CouplingMPOModel of the same Hamiltonian and parameters)
+            from tenpy.models.xxz_chain import XXZChain2
+            return XXZChain2(dict(common, Jxx=m['Jxx'], Jz=m['Jz'], hz=m['hz']))
         return XXZChain(dict(common, Jxx=m['Jxx'], Jz=m['Jz'], hz=m['hz']))
     if m['name'] == 'fermion':
         return FermionChain(dict(common, J=m['J'], V=m['V'], mu=m['mu'], conserve=m['conserve']))
@@ -69,8 +76,21 @@ class EnvTracer:
         o_delL, o_delR, o_cL, o_cR = env.del_LP, env.del_RP, env._contract_LP, env._contract_RP
         o_setB = psi.set_B
         o_free = eng.free_no_longer_needed_envs
+        o_cleanup = eng.mixer_cleanup
+        # Sweep.mixer_cleanup (post_run_cleanup, when the last sweep still ran with a mixer) regauges the site tensors and the stored
+        # environments consistently (same state, same contractions): not a new version of a site, the shadow tags stay as they are
+        self.finished = False
+
+        def mixer_cleanup():
+            self.finished = True
+            try:
+                return o_cleanup()
+            finally:
+                self.finished = False
 
         def get_LP(i, store=True):
+            if self.finished:
+                return o_getL(i, store)
             outer = self.ctx
             self.ctx = {'tag': None, 'side': 'L'}
             try:
@@ -85,6 +105,8 @@ class EnvTracer:
             return res
 
         def get_RP(i, store=True):
+            if self.finished:
+                return o_getR(i, store)
             outer = self.ctx
             self.ctx = {'tag': None, 'side': 'R'}
             try:
@@ -122,7 +144,9 @@ class EnvTracer:
 
         def set_LP(i, LP, age):
             c = self.ctx
-            if c is not None and c['side'] == 'L' and c['tag'] is not None:
+            if self.finished:
+                pass
+            elif c is not None and c['side'] == 'L' and c['tag'] is not None:
                 self.sh_L[i] = c['tag']
             elif self.read_L.get(i - 1) is not None:
                 # EffectiveH.update_LP with combine=True: LHeff (from the LP read for eff_H) contracted with the new site i-1
@@ -134,7 +158,9 @@ class EnvTracer:
 
         def set_RP(i, RP, age):
             c = self.ctx
-            if c is not None and c['side'] == 'R' and c['tag'] is not None:
+            if self.finished:
+                pass
+            elif c is not None and c['side'] == 'R' and c['tag'] is not None:
                 self.sh_R[i] = c['tag']
             elif self.read_R.get(i + 1) is not None:
                 self.sh_R[i] = (self.ver[i + 1],) + tuple(self.read_R[i + 1])
@@ -152,7 +178,8 @@ class EnvTracer:
             return o_delR(i)
 
         def set_B(i, B, form='B'):
-            self.ver[i % L] += 1
+            if not self.finished:
+                self.ver[i % L] += 1
             return o_setB(i, B, form)
 
         def free():
@@ -175,6 +202,7 @@ class EnvTracer:
         env.del_LP, env.del_RP, env._contract_LP, env._contract_RP = del_LP, del_RP, cL, cR
         psi.set_B = set_B
         eng.free_no_longer_needed_envs = free
+        eng.mixer_cleanup = mixer_cleanup
 
 
 class InfEnvTracer:
@@ -344,7 +372,50 @@ class InfEnvTracer:
         eng.prepare_update_local = prepare_update_local
 
 
+class StopTracer:
+    """Records, from outside, the discrete run protocol of IterativeSweeps.run (correspondence with Model/SweepStop.v): the value
+    returned by every call of is_converged(), and for every optimisation sweep the sweep counter at its start, the chi_max in force
+    and whether a mixer is active at its first local update (i.e. after the chi_list entry of this sweep has been applied)."""
+
+    def __init__(self, eng):
+        self.eng = eng
+        self.convs = []
+        self.sweeps = []
+        self.pending = False
+        o_conv, o_sweep, o_prep = eng.is_converged, eng.sweep, eng.prepare_update_local
+
+        def is_converged():
+            r = bool(o_conv())
+            self.convs.append(r)
+            return r
+
+        def sweep(*a, **kw):
+            optimize = kw.get('optimize', a[0] if a else True)
+            self.pending = bool(optimize)
+            return o_sweep(*a, **kw)
+
+        def prepare_update_local():
+            if self.pending:
+                self.pending = False
+                chi = eng.trunc_params.silent_get('chi_max', None)
+                self.sweeps.append([int(eng.sweeps), None if chi is None else int(chi), eng.mixer is not None])
+            return o_prep()
+        eng.is_converged, eng.sweep, eng.prepare_update_local = is_converged, sweep, prepare_update_local
+
+
 def run_dmrg(case):
+    out = run_one(case)
+    if case.get('compare_without_hc') and 'error' not in out:
+        # the same run on the same Hamiltonian built without explicit_plus_hc
+        c2 = json.loads(json.dumps(case))
+        c2['model']['explicit_plus_hc'] = False
+        c2.pop('compare_without_hc')
+        ref = run_one(c2)
+        out['ref'] = {k: ref.get(k) for k in ('E', 'E_mpo', 'sweeps', 'chi', 'norm_test', 'error', 'tb')}
+    return out
+
+
+def run_one(case):
     import tenpy.linalg.np_conserved as npc
     from tenpy.algorithms import dmrg, vumps
     from tenpy.networks.mps import MPS
@@ -383,6 +454,8 @@ def run_dmrg(case):
         return out
     try:
         eng = cls(psi, M, opts)
+        stp = StopTracer(eng)
+        min_sweeps_derived = eng.options.silent_get('min_sweeps', None)
         tr = None
         if case['bc'] == 'finite' and case.get('trace', True):
             tr = EnvTracer(eng)
@@ -400,6 +473,11 @@ def run_dmrg(case):
         return {'error': type(e).__name__ + ': ' + str(e)[:300], 'tb': traceback.format_exc()[-1500:]}
     out['E'] = float(np.real(E))
     out['sweeps'] = int(eng.sweeps)
+    out['hc'] = bool(M.H_MPO.explicit_plus_hc)
+    out['stop'] = {'convs': stp.convs, 'sweeps': stp.sweeps, 'min_sweeps': None if min_sweeps_derived is None else int(min_sweeps_derived),
+                   'mixer_end': eng.mixer is not None}
+    chi_end = eng.trunc_params.silent_get('chi_max', None)
+    out['chi_max_end'] = None if chi_end is None else int(chi_end)
     out['n'] = int(eng.n_optimize)
     out['norm'] = float(psi.norm)
     out['norm_test'] = float(np.max(psi.norm_test()))
